@@ -364,7 +364,7 @@ func runC08(e *Env) {
 		c08Check(t, p)
 	})
 
-	e.RunCases("random", e.N(30000, 2000000), 0, func(t *T) {
+	e.RunCases("random", e.N(30000, 12000000), 0, func(t *T) {
 		r := t.R
 		codes := []int{-1, 0, 100, 101, 200, 201, 204, 301, 404, 500, 599}
 		nh := 1 + r.IntN(4)
